@@ -198,7 +198,7 @@ Inductive own_eff (g : gcfg) (nw : Z) (e : event) (old new : tstate) : Prop :=
     new = latch_read_ts old -> own_eff g nw e old new.
 
 Lemma not_awaiting_live p : awaiting p = false -> live p = true -> p = PBody false.
-Proof. destruct p as [| | | | |[|]| |]; simpl; congruence. Qed.
+Proof. destruct p as [| | | | |[|]| | |]; simpl; congruence. Qed.
 
 Lemma step_own g s e s' t :
   step g s e = Some s' -> ev_task e = Some t -> own_eff g (now s) e (tasks s t) (tasks s' t).
